@@ -283,6 +283,13 @@ func (w *worker[T, JobType]) processNextJob() error {
 
 	w.curProcessing.Add(1)
 	j.changeStatus(processing)
+
+	// a concurrent Close won the race for the job, it must not be processed
+	if j.IsClosed() {
+		w.releaseWaiters(w.curProcessing.Add(^uint32(0)))
+		return nil
+	}
+
 	j.setAckId(ackId)
 
 	// then job will be process by the processSingleJob function inside spawnWorker
@@ -331,7 +338,7 @@ func (w *worker[T, JobType]) initPoolNode() *linkedlist.Node[pool.Node[JobType]]
 		w.workerFunc(j)
 
 		j.changeStatus(finished)
-		if err := j.Close(); err != nil {
+		if err := j.Close(); err != nil && !errors.Is(err, ErrJobAlreadyClosed) {
 			w.sendError(err)
 		}
 		w.freePoolNode(node)
